@@ -10,7 +10,9 @@ import (
 	"runtime"
 	"sort"
 	"strings"
+	"sync/atomic"
 	"time"
+	"verif/harness/internal/fw"
 )
 
 const codecRepoPrefix = "github.com/cuteLittleDevil/go-jt808/"
@@ -118,6 +120,7 @@ func codecGuard(f func()) codecGuardRes {
 	case r := <-done:
 		return r
 	case <-t.C:
+		atomic.AddInt32(&fw.HungCases, 1)
 		return codecGuardRes{timeout: true}
 	}
 }
